@@ -93,6 +93,12 @@ func rootType(root string) (r.Type, error) {
 		}
 		return nil, fmt.Errorf("unknown basic %q", f[1])
 	}
+	if len(f) == 2 && f[0] == "fixture" {
+		if t, ok := fixtures[f[1]]; ok {
+			return t, nil
+		}
+		return nil, fmt.Errorf("unknown fixture %q", f[1])
+	}
 	if len(f) != 3 {
 		return nil, fmt.Errorf("bad root %q", root)
 	}
@@ -162,6 +168,8 @@ func rtypeOf(d Desc) (t r.Type, err error) {
 			t = r.FuncOf([]r.Type{o, r.SliceOf(t)}, nil, true)
 		case "struct":
 			t = r.StructOf([]r.StructField{{Name: "A", Type: t}, {Name: "B", Type: o}})
+		case "embed":
+			t = r.StructOf(embedFieldsR(t, o, op.N))
 		default:
 			return nil, fmt.Errorf("bad op %q", op.Kind)
 		}
@@ -181,6 +189,11 @@ func xtypeOf(u *xr.Universe, d Desc) (t xr.Type, err error) {
 	for i, op := range d.Ops {
 		switch op.Kind {
 		case "elem", "key", "field", "in", "out", "method":
+			nav = i + 1
+		case "embed":
+			// Universe.StructOf deliberately never builds reflect structs with embedded fields (it
+			// emulates them): a struct with embedded fields is a non-emulated type only when it
+			// comes from reflect, so this step is taken on the reflect side
 			nav = i + 1
 		}
 	}
